@@ -806,10 +806,10 @@ func recursiveComparisonsMemoised(r *an.Run, rule string) {
 //     nothing in package engine truncates a slice held in a field to length
 //     zero to re-use its storage (x.f = x.f[:0]): sub-slices of it were
 //     handed to the matchers of the previous change.
-func eachChangeOnItsOwn(r *an.Run, rule string) {
+func eachChangeOnItsOwn(r *an.Run, rule string, compileOnly bool) {
 	r.Rule(rule)
 	n := 0
-	if f := fn(r, parseP, "parser.parsePatchVersion"); f != nil {
+	if f := fn(r, parseP, "parser.parsePatchVersion"); f != nil && !compileOnly {
 		var parse *ssa.Call
 		for _, c := range an.Calls(f) {
 			if sc := an.StaticCallee(c); sc != nil && short(sc) == "internal/pgo.Parse" {
@@ -832,7 +832,7 @@ func eachChangeOnItsOwn(r *an.Run, rule string) {
 	// the parser object carries nothing from one change to the next
 	for _, f := range r.P.PkgFuncs(parseP) {
 		recv := recvValue(f)
-		if recv == nil || f.Blocks == nil || !strings.HasSuffix(an.ShortType(recv.Type()), "parse.parser") {
+		if compileOnly || recv == nil || f.Blocks == nil || !strings.HasSuffix(an.ShortType(recv.Type()), "parse.parser") {
 			continue
 		}
 		for _, in := range an.StoresIn(f) {
@@ -913,6 +913,11 @@ func eachChangeOnItsOwn(r *an.Run, rule string) {
 		}
 	}
 	r.Count("per-change independence sites", n)
+	if compileOnly {
+		r.Min("per-change independence sites", 2)
+		r.Pass("compiled-lists-are-not-reused", 0, "%d sites inspected: compilers are created per change and no field slice is truncated for reuse, so the per-section name lists the failure memo consults stay what compilation made them", n)
+		return
+	}
 	r.Min("per-change independence sites", 3)
 	r.Pass("each-change-on-its-own", 0, "%d sites inspected: versions are parsed in the call that returns them, the parser keeps no state, compilers are created per change, no field slice is truncated for reuse", n)
 }
